@@ -86,6 +86,11 @@ pub fn run(
     let mut iter_counter = 0u64;
 
     loop {
+        #[cfg(feature = "verif-hooks")]
+        if aquatic_common::verif_hooks::fault_point("socket") {
+            return Ok(());
+        }
+
         poll.poll(&mut events, Some(poll_timeout)).context("poll")?;
 
         for event in events.iter() {
